@@ -16,10 +16,13 @@ Proved (all streams, thresholds of either sign, monotone counts, zero-threshold 
                                   stream) finds exactly what the search on the whole stream finds — the
                                   first half of block independence;
 * record CONTENT exactness for edge-multi records is `C01_block_exact` (Props/C01).
-Kept as full statements, decided at run time by the oracle `chkC08` on the REAL code (one-block vs
-many-block runs of the same stream, crash = violation): `C08_block_independent_full`, `C08_no_oob_full`.
+* `C08_block_independent`         the sequence of record specifications (frame, pre-trigger length, length)
+                                  is the same whether the stream arrives cut into any blocks or as one
+                                  block (simulation proof: `Lemmas/EmtSim.lean`, `EmtStep.lean`).
+Kept as a full statement, decided at run time by the oracle `chkC08` on the REAL code (crash =
+violation): `C08_no_oob_full` (bounds across blocks).
 -/
-import DastardV.Lemmas.EmtShift
+import DastardV.Lemmas.EmtStep
 namespace DastardV.C08
 open Trig
 
@@ -56,45 +59,55 @@ theorem C08_search_local (G : List Nat) (k : Nat) (f0 : Int) (zt : ZT) (iFirst i
       (findNext G f0 zt (k + iFirst) (k + iLast) thr nmono maxN ezt (k + i)).map (Found.shift k) :=
   findNext_drop G k f0 zt iFirst iLast thr nmono maxN ezt _ i (Nat.le_refl _) h1 h4
 
-/-! ### single-channel edge-multi run and the full statements -/
+/-! ### block independence -/
 
-/-- one block for one channel in edge-multi mode: append, compute record specs, trim -/
-def stepEmt (zt : ZT) (c : Chan) (seg : List Nat) (first per : Int) (sg : Bool) : Option (Chan × List Spec) :=
-  let ca := append c seg first 0 per sg
-  match emtSpecs ca.buf ca.first zt ca.emt with
-  | none => none
-  | some (emt', specs) => some (trim { ca with emt := emt' }, specs)
-
-def runEmt (zt : ZT) (per : Int) (sg : Bool) : Chan → Int → List (List Nat) → Option (Chan × List Spec)
-  | c, _, [] => some (c, [])
-  | c, first, seg :: segs =>
-    match stepEmt zt c seg first per sg with
-    | none => none
-    | some (c1, sp) =>
-      match runEmt zt per sg c1 (first + seg.length) segs with
-      | none => none
-      | some (c2, sp2) => some (c2, sp ++ sp2)
-
-/-- a freshly configured edge-multi channel -/
-def FreshEmt (c : Chan) : Prop :=
-  c.buf = [] ∧ c.emt.next = 0 ∧ c.emt.t = 0 ∧ c.emt.u = 0 ∧ c.emt.v = 0 ∧
-    c.emt.npre = c.npre ∧ c.emt.nsamp = c.nsamp ∧ 3 ≤ c.npre ∧ c.npre < c.nsamp ∧ c.emt.valid = true
-
-/-- FULL: the record list does not depend on how the stream is cut into blocks -/
-def C08_block_independent_full : Prop :=
-  ∀ (zt : ZT) (per f0 : Int) (sg : Bool) (c c1 c2 : Chan) (segs : List (List Nat)) (e1 e2 : List Spec),
-    FreshEmt c → 0 < f0 →
-    runEmt zt per sg c f0 segs = some (c1, e1) →
-    runEmt zt per sg c f0 [segs.flatten] = some (c2, e2) → e1 = e2
-
-/-- FULL: no stream content or block pattern makes the edge-multi pass index outside -/
-def C08_no_oob_full : Prop :=
-  ∀ (zt : ZT) (per f0 : Int) (sg : Bool) (c : Chan) (segs : List (List Nat)),
-    FreshEmt c → 0 < f0 → (∀ p, -1 ≤ zt p ∧ zt p ≤ 1) →
-    ∃ r, runEmt zt per sg c f0 segs = some r
+/-- **C08, block independence.**  One channel in edge-multi mode, freshly configured (`FreshC`:
+empty buffer, scan position 0, lengths satisfying the validity rule), fed the same stream once cut
+into ANY sequence of blocks `seg :: segs` (any lengths, empty blocks allowed) and once as a single
+block: whenever neither run panics, the sequences of record specifications (trigger frame,
+pre-trigger length, total length) are identical — for every threshold, monotone count, record mode
+and every kink-fit oracle `zt` that moves a trigger by at least −1 sample (the real fit moves it by
+−1, 0 or +1).  Together with `C01_block_exact` (samples of a record are the stream excerpt its
+specification names) this is the block independence of the records. -/
+theorem C08_block_independent (zt : ZT) (hzt : ∀ p, -1 ≤ zt p) (per f0 : Int) (hf0 : 0 ≤ f0) (sg : Bool)
+    (c : Chan) (hf : FreshC c) (seg : List Nat) (segs : List (List Nat)) (c1 c2 : Chan) (e1 e2 : List Spec)
+    (hmulti : runEmt zt per sg c f0 (seg :: segs) = some (c1, e1))
+    (hsingle : runEmt zt per sg c f0 [(seg :: segs).flatten] = some (c2, e2)) : e1 = e2 := by
+  -- the block-by-block run
+  unfold runEmt at hmulti
+  split at hmulti
+  · simp at hmulti
+  rename_i ca spa hstepa
+  split at hmulti
+  · simp at hmulti
+  rename_i cb spb hrunb
+  simp only [Option.some.injEq, Prod.mk.injEq] at hmulti
+  obtain ⟨_, rfl⟩ := hmulti
+  obtain ⟨ka, hinva⟩ := stepEmt_first hf hf0 hstepa
+  have hrunb' : runEmt zt per sg ca (f0 + (seg.length : Int)) segs = some (cb, spb) := hrunb
+  obtain ⟨kb, hinvb⟩ := runEmt_inv hf.hok hzt segs seg ca spa ka cb spb hinva hrunb'
+  -- the single-block run
+  unfold runEmt at hsingle
+  split at hsingle
+  · simp at hsingle
+  rename_i cs sps hsteps
+  simp only [runEmt, Option.some.injEq, Prod.mk.injEq] at hsingle
+  obtain ⟨_, rfl⟩ := hsingle
+  obtain ⟨ks, hinvs⟩ := stepEmt_first hf hf0 hsteps
+  have hG : (seg :: segs).flatten = seg ++ segs.flatten := by simp
+  rw [hG] at hinvs
+  simpa using emtInv_same hf.hok hinvb hinvs
 
 /-- the hypotheses are met by an ordinary configuration -/
-example : FreshEmt { npre := 4, nsamp := 12, emt := { npre := 4, nsamp := 12, threshold := 100, nmonotone := 1, enableZT := true } } := by
-  refine ⟨rfl, rfl, rfl, rfl, rfl, rfl, rfl, by decide, by decide, by decide⟩
+example : FreshC { npre := 4, nsamp := 12, emt := { npre := 4, nsamp := 12, threshold := 100, nmonotone := 1, enableZT := true } } :=
+  ⟨rfl, rfl, ⟨by decide, by decide, fun _ => by decide⟩⟩
+
+/-- FULL (not yet proved): no stream content or block pattern makes the edge-multi pass index outside.
+Per block this is `C08_search_in_bounds`; across blocks it is decided at run time (a crash of the
+real pipeline is a violation). -/
+def C08_no_oob_full : Prop :=
+  ∀ (zt : ZT) (per f0 : Int) (sg : Bool) (c : Chan) (segs : List (List Nat)),
+    FreshC c → 0 ≤ f0 → (∀ p, -1 ≤ zt p ∧ zt p ≤ 1) →
+    ∃ r, runEmt zt per sg c f0 segs = some r
 
 end DastardV.C08
